@@ -163,6 +163,10 @@ soups = [" ".join(t) for k in (1, 2, 3) for t in itertools.product(TOK, repeat=k
         [" ".join(t) for k in (1, 2) for t in itertools.product(TOK, repeat=k)]
 soups += [" ".join(rng.choice(TOK) for _ in range(rng.randint(3, 9))) for _ in range(6000 if tier == "quick" else 60000)]
 soups += ["(" * 300 + "1" + ")" * 300, "1" + " + 1" * 500, "- " * 400 + "1"]
+# huge operands in every binary position (termination)
+HUGE = ["1e400", "-1e400", "1e1000000000", "99999999999", "-99999999999", "1e-1000000000"]
+BIN = ["round", "e", "^", "*", "/", "mod", "div", "+", "-", "=", "<", "and", "or"]
+soups += [f"{a} {op} {b}" for op in BIN for a in HUGE + ["1", "2.5"] for b in HUGE + ["1", "2.5"]]
 for s in soups:
     try:
         r = call_pf(ctx, "#expr", (s,))
